@@ -18,7 +18,7 @@ def run_all():
     os.makedirs(OUT, exist_ok=True)
     import importlib
     res = {}
-    for name in ('perms', 'floatsites'):
+    for name in ('perms', 'floatsites', 'idents'):
         mod = importlib.import_module('translator.' + name)
         tmp = os.path.join(OUT, '.' + name + '.tmp')
         info = mod.emit(tmp)
